@@ -61,7 +61,6 @@ def run(W, p):
     u = W.real("u", -W.frac(1, 100), W.frac(1, 100))
     temp = W.real("temp")
     ref = W.int("ref", T0 - 10 ** 6, T0 + 10 ** 6)
-    W.assume(W.not_(W.eq(ref, 0)))
     # who is who
     owner = [i for i in range(R) for _ in range(mult[i])]  # pid -> row
     # death: particle pid is killed by the IBM at step kd[pid] (after the move of that step), N = never
